@@ -1587,6 +1587,13 @@ func (s *Store) processLTXStreamFrame(ctx context.Context, frame *LTXStreamFrame
 		return fmt.Errorf("fsync ltx file: %w", err)
 	}
 
+	// Validate file with an LTX decoder before renaming.
+	if _, err := f.Seek(0, io.SeekStart); err != nil {
+		return fmt.Errorf("seek for validation: %w", err)
+	} else if err := ltx.NewDecoder(f).Verify(); err != nil {
+		return fmt.Errorf("ltx validation error: %w", err)
+	}
+
 	// Atomically rename file.
 	if err := s.OS.Rename("PROCESSLTX", tmpPath, path); err != nil {
 		return fmt.Errorf("rename ltx file: %w", err)
